@@ -1262,6 +1262,11 @@ def apply_env(world, op):
     if kind == "write":
         if os.path.isdir(p):
             return False
+        q = parent
+        while q and not os.path.lexists(q):
+            q = os.path.dirname(q)
+        if not os.path.isdir(q):
+            return False  # an ancestor of the target is a regular file (e.g. a directory that was replaced by a file)
         R_makedirs(parent, exist_ok=True)
         with R_open(p, "wb") as f:
             f.write(content_bytes(op.get("c")))
@@ -1269,7 +1274,10 @@ def apply_env(world, op):
         _stamp(world, parent)
         fired = True
     elif kind == "mkdir":
-        if not os.path.lexists(p):
+        q = parent
+        while q and not os.path.lexists(q):
+            q = os.path.dirname(q)
+        if not os.path.lexists(p) and os.path.isdir(q):
             R_makedirs(p)
             _stamp(world, p, parent)
             fired = True
